@@ -382,6 +382,21 @@ func RunCheck(id, tier string, seed int64, replayFile string) int {
 			samples = append(samples, r.Sample)
 		}
 	}
+	{
+		type slow struct {
+			ID string `json:"case"`
+			Ms int64  `json:"ms"`
+		}
+		var sl []slow
+		for _, r := range agg.Results {
+			sl = append(sl, slow{r.CaseID, r.WallMs})
+		}
+		sort.Slice(sl, func(i, j int) bool { return sl[i].Ms > sl[j].Ms })
+		if len(sl) > 5 {
+			sl = sl[:5]
+		}
+		agg.Extra["slowest_cases"] = sl
+	}
 	if chk.Race {
 		n := 0
 		for _, l := range raceLogs {
